@@ -30,6 +30,25 @@ Definition check_cross (c : list (list bool) * list nat * list nat * (Q * list Q
 """
 
 
+HEADER_NSI = """From Coq Require Import QArith Qcanon Qabs List Bool Arith.
+From PV.Model Require Import PairLoop Interacting NsiKernels.
+Import ListNotations.
+Definition close (m : Qc) (x : Q) : bool :=
+  Qle_bool (Qabs (this m - x)) ((1 # 1000000000) * (1 + Qabs x))%Q.
+Fixpoint all2 {A B} (f : A -> B -> bool) (l : list A) (l' : list B) : bool :=
+  match l, l' with [], [] => true | a :: l, b :: l' => f a b && all2 f l l' | _, _ => false end.
+(* A+ = A + Id, node weights, list1, list2,
+   (n.s.i. cross transitivity, n.s.i. cross local clustering and n.s.i. cross
+   degree over list1) *)
+Definition check_nsi (c : list (list bool) * list Q * list nat * list nat * (Q * list Q * list Q)) : bool :=
+  let '(Ap, w, l1, l2, (tr, cl, deg)) := c in
+  let wf := fun i => Q2Qc (nth i w 0%Q) in
+  close (k_nsi_cross_transitivity (mfun Ap) wf l1 l2) tr &&
+  all2 close (map (k_nsi_cross_local_clustering (mfun Ap) wf l2) l1) cl &&
+  all2 close (map (k_nsi_cross_degree (mfun Ap) wf l2) l1) deg.
+"""
+
+
 TRANSLATORS = [('pyx_cross', 'CrossK')]
 
 
@@ -118,6 +137,42 @@ def correspondence(ctx):
         ctx.corr("cross-clustering model != implementation", meta[i], None)
     ctx.traces += len(terms)
     ctx.stats["c_cross"] = len(terms)
+    # the n.s.i. kernels (Model/NsiKernels.v) with dyadic node weights
+    terms, meta = [], []
+    with warnings.catch_warnings():
+        warnings.simplefilter("ignore")
+        for A, d in gs:
+            if d or len(A) > 7:
+                continue
+            A = np.asarray(A)
+            n = len(A)
+            w = np.array(graphs.weights(ctx.rng, n))
+            net = InteractingNetworks(adjacency=A, node_weights=w,
+                                      silence_level=3)
+            Ap = (A + np.eye(n, dtype=int)) > 0
+            for l1, l2 in partitions(ctx, n)[:3]:
+                try:
+                    tr = float(net.nsi_cross_transitivity(l1, l2))
+                    cl = np.asarray(net.nsi_cross_local_clustering(l1, l2),
+                                    float)
+                    dg = np.asarray(net.nsi_cross_degree(l1, l2), float)
+                except Exception:
+                    ctx.stat("nsi kernel raises")
+                    continue
+                if not (np.isfinite(tr) and np.all(np.isfinite(cl))):
+                    ctx.stat("nsi kernel: 0/0 (no cross link)")
+                    continue
+                terms.append(f"({bm(Ap)}, {ql(w)}, {nl(l1)}, {nl(l2)}, "
+                             f"({qlit(tr)}, {ql(cl)}, {ql(dg)}))")
+                meta.append({"A": A.tolist(), "w": w.tolist(), "l1": l1,
+                             "l2": l2})
+    fails = ctx.coq_failing("c11_nsi", HEADER_NSI, terms, "check_nsi",
+                            chunk=100)
+    for i in fails or []:
+        ctx.corr("n.s.i. cross kernel model != implementation", meta[i],
+                 None)
+    ctx.traces += len(terms)
+    ctx.stats["c_nsi_kernels"] = len(terms)
 
 
 # --------------------------------------------------------------------------
